@@ -315,3 +315,25 @@ Qed.
 
 (** the interface for the extracted driver: the document as written, the test, the specification *)
 Definition doc_check (d : list piece) : bool * bytes * bytes := (doc_ok d, raw d, spec false d).
+
+(** running the pass again changes nothing: what Render writes is a fixed point of the eraser (a document that went
+    through Buffer.Bytes once, e.g. written by a template into a plain io.Writer and embedded again, is left alone) *)
+Theorem nuke_document_idempotent d : normal d -> texts_inert d -> nuke (nuke (raw d)) = nuke (raw d).
+Proof.
+  intros Hn Hi. rewrite (nuke_document d Hn Hi). apply nuke_inert. apply spec_inert. exact Hi.
+Qed.
+
+(** concatenation: a nested template's pieces spliced into its caller's document are trimmed by the caller's sentinels
+    exactly like literal text: [raw] and [texts] are morphisms, so the document theorem applies to the whole render *)
+Lemma raw_app d1 d2 : raw (d1 ++ d2) = raw d1 ++ raw d2.
+Proof. induction d1 as [|p d1 IH]; [reflexivity|]. cbn [app raw]. rewrite IH, app_assoc. reflexivity. Qed.
+
+Lemma texts_app d1 d2 : texts (d1 ++ d2) = texts d1 ++ texts d2.
+Proof.
+  induction d1 as [|p d1 IH]; [reflexivity|]. destruct p; cbn [app texts]; rewrite IH; [rewrite app_assoc|..]; reflexivity.
+Qed.
+
+Lemma texts_inert_app d1 d2 : texts_inert d1 -> texts_inert d2 -> texts_inert (d1 ++ d2).
+Proof.
+  induction d1 as [|p d1 IH]; intros H1 H2; [exact H2|]. destruct p; cbn [app texts_inert] in *; [split; [tauto|apply IH; tauto]|apply IH; assumption..].
+Qed.
